@@ -75,7 +75,11 @@ def c_ent_forms(ctx, args):
     A = [i for i, b in enumerate(mask) if b]
     vals = []
     if A:
-        vals = [int(s.entropy(A)), int(s.entropy(tuple(A))), int(s.entropy(np.array(mask, dtype=np.bool_))), int(s.entropy(list(reversed(A))))]
+        import random as _r
+        rr = _r.Random(len(A) * 1009 + sum(A) + n)
+        perms = [rr.sample(A, len(A)) for _ in range(3)]          # an index list names a SET of qubits: any order, as list / tuple / integer array
+        vals = [int(s.entropy(A)), int(s.entropy(tuple(A))), int(s.entropy(np.array(mask, dtype=np.bool_))), int(s.entropy(list(reversed(A))))] + \
+               [int(s.entropy(list(perms[0]))), int(s.entropy(tuple(perms[1]))), int(s.entropy(np.array(perms[2])))]
         if len(set(vals)) != 1:
             return {'kind': 'oracle', 'where': 'np:entropy input forms disagree', 'observed': vals, 'expected': 'equal'}
     if s.entropy([]) != 0:
